@@ -23,7 +23,7 @@ Targets == {"global", "local", "valparam", "refparam"}
 Shapes == {"scalar", "elem", "field", "condl", "condr"}   \* cond*: lvalue (c ? l : T), (c ? T : l) mixing in an own local
    \* (a parenthesised comma expression is not an expression of the language - commas exist in update lists and for-clauses only - so it cannot be an lvalue)
 WriteForms == {"assign", "addassign", "preinc", "postinc", "predec", "postdec"}
-StmtForms == {"plain", "if", "else", "for_body", "for_init", "for_step", "for_cond", "while_body", "while_cond",
+StmtForms == {"plain", "if", "else", "then_else", "elseif", "for_body", "for_init", "for_step", "for_cond", "while_body", "while_cond",
               "do_body", "do_cond", "iter_body", "block", "local_init", "return"}
 WrapForms == IF AllForms THEN StmtForms ELSE {"plain", "do_body", "local_init"}
 ArgModes == {"g", "l", "r"}      \* what a wrapper passes for the callee's reference parameter: the global, an own local, its own reference parameter
